@@ -61,7 +61,7 @@ META = {
     },
     "C12": {
         "technique": "deterministic simulation: extreme clocks/durations (up to MaxInt64) through every calculator kind and override; exact deadline comparison via GetEntryQuietly after every step, visibility flip at the deadline",
-        "level_text": "Seeded search with clock origins up to 2^63-2^50 and durations up to MaxInt64 through creation/write/access/custom calculators, SetExpiresAfter/SetRefreshableAfter; ExpiresAtNano/RefreshableAtNano must equal op time + duration exactly where representable, otherwise the entry must stay visible; the generator steps the clock to deadline-1/deadline/deadline+1.",
+        "level_text": "Two engines (all operations; refresh-only with forced refresh policies, where the refresh deadline of every entry is compared after every step). Seeded search with clock origins up to 2^63-2^50 and durations up to MaxInt64 through creation/write/access/custom calculators, SetExpiresAfter/SetRefreshableAfter; ExpiresAtNano/RefreshableAtNano must equal op time + duration exactly where representable, otherwise the entry must stay visible; the generator steps the clock to deadline-1/deadline/deadline+1.",
         "level_note": SEQ_NOTE,
         "rule": "one case = (configuration with expiry [and refresh], operation sequence). Non-trivial: at least 5 operations touched live entries (deadline computed and compared). Distinct: hash of the case.",
         "components": comp(),
@@ -69,11 +69,11 @@ META = {
     },
     "C13": {
         "technique": "deterministic simulation: TTLs from ns to years, huge clock jumps, CleanUp as an operation; after each CleanUp every entry overdue by more than one tick must have been reported (timer-wheel sweep oracle)",
-        "level_text": "Seeded search with TTLs log-uniform from 1 ns to 3 years (all wheel levels, cascades), extensions, invalidations and clock jumps up to centuries; after each CleanUp at T no entry with deadline and write older than T-1.1s may remain unreported, and EstimatedSize must equal the number of unreported entries.",
+        "level_text": "Four engines: sequential with the same-goroutine executor; sequential with a harness-queued executor (write events are replayed late, after the clock has moved past their deadline - found 159aebe); scripted scenarios (write, advance beyond the deadline, drain, CleanUp) over every wheel level; and a concurrent half where CleanUp races writers. Seeded search with TTLs log-uniform from 1 ns to 3 years (all wheel levels, cascades), extensions, invalidations and clock jumps up to centuries; after each CleanUp at T no entry with deadline and write older than T-1.1s may remain unreported, and EstimatedSize must equal the number of unreported entries.",
         "level_note": SEQ_NOTE,
         "rule": "one case = (configuration with expiry, operation sequence with CleanUp). Non-trivial: at least one sweep check ran and at least one automatic expiration was observed. Distinct: hash of the case.",
         "components": comp(),
-        "assumptions": ["entries whose deadline was shortened by a read/override are exempt, as the property's proviso says", "the write-vs-maintenance race of C13 is explored by the concurrent engine (C05/C14 runs with expiry)"],
+        "assumptions": ["entries whose deadline was shortened by a read/override are exempt, as the property's proviso says", "a sweep check in the concurrent half only counts writes that returned before the CleanUp was invoked"],
     },
     "C19": {
         "technique": "deterministic simulation with simulated stream (short reads, EOF-with-data) and clock offset between SaveCacheTo and LoadCacheFrom; statement-derived round-trip oracle",
@@ -118,8 +118,8 @@ META = {
         "assumptions": ["EstimatedSize = |All()| is demanded only without expiry (expired-but-unswept entries are counted but not iterated)"],
     },
     "C06": {
-        "technique": "deterministic simulation: unique value per write; at quiescence values written = present + reported, exactly-once per handler, cause vs emitting context, per-key removal order",
-        "level_text": "Concurrent writers/invalidators/InvalidateAll/loads with sync, queued and default executors. Every written value is unique, so at quiescence (after CleanUp and executor drain) each explicitly written value must be either present or reported exactly once to OnAtomicDeletion, OnDeletion must mirror OnAtomicDeletion, the cause must be compatible with the operation in whose context the handler fired, and a value may not be reported removed before the value it replaced.",
+        "technique": "deterministic simulation: seeded schedules and clock steps over writers/readers/timer wheel; unique value per write; at quiescence values written = present + reported, exactly-once per handler, cause vs emitting context and configuration, per-key removal order; sequential half against the reference model",
+        "level_text": "Three engines: concurrent writers/invalidators/InvalidateAll/loads with sync, queued and default executors (with clock advances and CleanUp as operations); the same with forced expiry policies so that reads move deadlines while writers, the timer wheel and the clock race (this engine found bd7dbb1 and 366ca72); and a sequential half where the model names the exact cause of every event. Every written value is unique, so at quiescence (after CleanUp and executor drain) each explicitly written value must be either present or reported exactly once to OnAtomicDeletion, OnDeletion must mirror OnAtomicDeletion, the cause must be compatible with the operation in whose context the handler fired, and a value may not be reported removed before the value it replaced.",
         "level_note": CONC_NOTE,
         "rule": "one case = (configuration, prefill, per-task programs) x one schedule. Non-trivial: more than 4 context switches and at least one atomic deletion event. Distinct: hash of (case, context-switch sequence).",
         "components": comp(),
@@ -135,7 +135,7 @@ META = {
     },
     "C09": {
         "technique": "deterministic simulation: loads/refreshes with scheduling points inside the loader racing explicit writes/invalidations on 1-2 keys; stale-load rule over the history plus porcupine with split loads",
-        "level_text": "2-3 tasks on one or two keys: Get/Refresh with loaders that yield, against Set/SetIfAbsent/Compute*/Invalidate. For every load whose loader was entered before an explicit write/invalidation W was invoked, neither a read invoked after W returned nor the final contents may show the loaded value; plus per-key linearizability with the load split into miss/installation steps.",
+        "level_text": "2-3 tasks on one or two keys: Get/BulkGet/Refresh/BulkRefresh with loaders that yield, against Set/SetIfAbsent/Compute*/Invalidate. For every load whose loader was entered before an explicit write/invalidation W was invoked, neither a read invoked after W returned nor the final contents may show the loaded value, and a not-found load may not remove (nor a load displace) a value written after its loader was entered; plus per-key linearizability with the load split into miss/installation steps.",
         "level_note": CONC_NOTE,
         "rule": "one case = (configuration, per-task programs) x one schedule. Non-trivial: an explicit write or invalidation of the key was invoked inside a load window (counted per window position before/after the loader returned). Distinct: hash of (case, context-switch sequence).",
         "components": comp(),
@@ -175,7 +175,7 @@ META = {
     },
     "C18": {
         "technique": "simulation-controlled hash seeds (random and adversarially colliding) and random source for the real sketch and policy.admit; per-period count bounds, aging and admission rules checked after every recording",
-        "level_text": "Weakest fit for this technique family (single task, no schedule): what the simulator contributes is ownership of the two nondeterminism seams the property quantifies over - hash seeds (maphash shim, incl. a colliding mode) and the admission random source. Recording programs with ensureCapacity calls (non powers of two, resizes) are run against the real sketch: estimate >= min(recordings in the period, 15), <= 15, zero before enablement, halving on aging; real policy.admit with an injected rand: candidate > victim admits, candidate <= victim and < 6 never admits for any rand value, the jitter branch fires for at most 1/16 of uniform values.",
+        "level_text": "Two engines. Component engine - weakest fit for this technique family (single task, no schedule): what the simulator contributes is ownership of the two nondeterminism seams the property quantifies over - hash seeds (maphash shim, incl. a colliding mode) and the admission random source. Recording programs with ensureCapacity calls (non powers of two, resizes) are run against the real sketch: estimate >= min(recordings in the period, 15), <= 15, zero before enablement, halving on aging; real policy.admit with an injected rand: candidate > victim admits, candidate <= victim and < 6 never admits for any rand value, the jitter branch fires for at most 1/16 of uniform values. Cache-level engine: a bounded real cache with the admission random source pinned off is driven by generated programs; whenever one write made exactly one main-region entry overflow while the written key stayed, some surviving window entry (or the written key) must have a strictly greater frequency estimate than the victim - a new arrival displaces the policy's victim only if it is more popular.",
         "level_note": "Trusted: the overlay accessors (//go:build verif) expose the unexported sketch and admit unchanged. This is seeded input/seed generation rather than interleaving exploration; stated plainly.",
         "rule": "one case = (hash mode, recording program). Non-trivial: more than 10 recordings after enablement. Distinct: hash of the case.",
         "components": {"real": "sketch.go, policy.admit (instrumented), xruntime hasher", "stubbed": "maphash seeds and the policy's rand come from the run's streams"},
